@@ -45,6 +45,14 @@ def cases(tier):
                             yield {'dims': list(dims), 'H': hk, 'r': rk, 'h': h, 'nz': nz}
                     # exactly one step
                     yield {'dims': list(dims), 'H': hk, 'r': rk, 'h': 0.3, 'nz': 0, 'nsteps': 1}
+                    if list(rk) == max_ranks(list(dims)) and hk in ('dense-real', 'local-complex'):
+                        # step counts for which n*h and the h summed n times differ in floating point (0.1: 7..12, 0.05: 6..12)
+                        for h_, ns_ in ((0.1, 10), (0.05, 7), (0.2, 6)):
+                            yield {'dims': list(dims), 'H': hk, 'r': rk, 'h': h_, 'nz': 0, 'nsteps': ns_, 'long': True}
+                        # hybrid scheme on a maximal-rank state with a tiny Schmidt coefficient and a COARSE threshold: maximal-rank
+                        # bonds are propagated by the one-site scheme, so nothing may be truncated
+                        if d == 2:
+                            yield {'dims': list(dims), 'H': hk, 'r': rk, 'h': 0.05, 'nz': 0, 'nsteps': 2, 'schmidt': True}
                     # a REAL initial state (the flow is complex all the same)
                     yield {'dims': list(dims), 'H': hk, 'r': rk, 'h': 0.3, 'nz': 0, 'x0': 'real'}
 
@@ -140,6 +148,15 @@ def run_case(case, seed):
     d = len(dims); N = int(np.prod(dims))
     op, H = make_H(rng, dims, kind)
     x0t = tt_from(rand_cores(rng, dims, [1] * d, rk, case.get('x0') != 'real'))
+    if case.get('schmidt'):
+        from scikit_tt.tensor_train import TT as _TT
+        k_ = min(dims)
+        qa = np.linalg.qr(rng.standard_normal((dims[0], k_)) + 1j * rng.standard_normal((dims[0], k_)))[0]
+        qb = np.linalg.qr(rng.standard_normal((dims[1], k_)) + 1j * rng.standard_normal((dims[1], k_)))[0]
+        sv_ = np.array([1.0, 0.5, 1e-3][:k_]) if k_ > 1 else np.array([1.0])
+        if k_ == 2:
+            sv_ = np.array([1.0, 1e-3])
+        x0t = _TT([(qa * sv_).reshape(1, dims[0], 1, k_), qb.T.reshape(k_, dims[1], 1, 1)])
     x0t = (1.0 / x0t.norm()) * x0t
     x0t.ortho_right()
     x0 = vec(x0t)
@@ -196,6 +213,11 @@ def run_case(case, seed):
                             r.true(key + ':rank-cap', all(max(s.ranks) <= mr for s in sol[1:] if meta_problem(s) is None))
                 finally:
                     STATE['mon'] = None
+        if case.get('schmidt'):
+            key = 'tdvp:coarse-threshold-at-maximal-ranks'
+            with r.op(key + ':call'):
+                sol = ode.tdvp(op, x0t, h, nsteps, threshold=1e-2, max_rank=50, normalize=0)
+                check_list(key, sol, True, False)
         # linearity: a tiny-norm state with the default relative threshold must be propagated just as exactly
         if representable and nz == 0:
             sc = 1e-11
